@@ -136,6 +136,9 @@ def dead_reckoning(h):
         h.check(f'{tag}: first-order step, normalised', h.eq(out * refn2, ref * ov) & h.gt(ov, 0.0))
     same_dir('Madgwick', np.array(flt.Madgwick().updateIMU(q.copy(), g.copy(), zero.copy(), dt=dt)), step, n2)
     same_dir('Mahony', np.array(flt.Mahony().updateIMU(q.copy(), g.copy(), zero.copy(), dt=dt)), step, n2)
+    b0 = h.vec('b', 3, -1, 1)
+    same_dir('Mahony with a bias estimate', np.array(flt.Mahony(b0=b0.copy()).updateIMU(q.copy(), g.copy(), zero.copy(), dt=dt)), step, n2)
+    same_dir('Mahony.updateMARG with a bias estimate', np.array(flt.Mahony(b0=b0.copy()).updateMARG(q.copy(), g.copy(), zero.copy(), g.copy(), dt=dt)), step, n2)
     same_dir('ROLEQ', np.array(flt.ROLEQ().attitude_propagation(q.copy(), g.copy(), dt)), step, n2)
     e = flt.EKF(magnetic_ref=60.0).f(q.copy(), g.copy(), dt)
     h.check('EKF.f == q + dt/2 q (x) (0, w)', h.eq(np.array(e), step))
